@@ -9,8 +9,9 @@ import ast
 from sa import callgraph
 from sa.astutil import (anorm, call_name, calls_in, dotted, norm, walk_no_nested, last_attr,
                         names_in, fact_texts, try_fold, enclosing_stmt, ancestors,
-                        func_params, enclosing_loops)
+                        func_params, enclosing_loops, facts_at)
 from sa.loader import AnalysisError
+from sa.flow import Analysis
 from sa.canon import canon as canon_of
 from checks.c06 import walk_with_lambdas
 from checks import common
@@ -447,6 +448,61 @@ def axis_uniform(fn):
     return orig == ren, len(stmts), [a[:150] for a in orig if a not in ren][:3]
 
 
+class _CentreSet(Analysis):
+    """must-analysis: has ``self.set_center(...)`` been called on every path?"""
+    def initial(self):
+        return False
+
+    def join(self, a, b):
+        return a and b
+
+    def transfer(self, stmt, state):
+        return state or any(last_attr(c) == 'set_center' and norm(c.func.value) == 'self'
+                            for c in calls_in(stmt))
+
+    def eval_test(self, expr, state):
+        return self.transfer(expr, state)
+
+
+def check_group_centres(ctx, rule, prog):
+    """The group centre starts at the coordinate origin (Group.__init__) - a
+    position that does not move with the structure.  Every set-up routine must
+    therefore replace it, on every path, by a mean of atom positions."""
+    gmod = prog.mod('group')
+    init = gmod.func('Group.__init__')
+    origin = [n for n in walk_no_nested(init) if isinstance(n, ast.Assign)
+              and norm(n.targets[0]) in ('self.x', 'self.y', 'self.z') and try_fold(n.value) is not None]
+    n = 0
+    for qual, fn in sorted(gmod.funcs.items()):
+        if not qual.endswith('.setup_atoms'):
+            continue
+        n += 1
+        exits = _CentreSet().exit_states(fn)
+        bad = [st for st, state in exits if not state]
+        ctx.ob(rule, 'centre:set-on-every-path:' + qual, not bad,
+               '%s replaces the origin default of the group centre by self.set_center(...) on every '
+               'path to a normal exit (%d exits, %d without): a centre left at (0, 0, 0) makes the '
+               'buried count, desolvation and Coulomb partners depend on where the structure sits'
+               % (qual, len(exits), len(bad)), gmod, bad[0] if bad and bad[0] is not None else fn)
+    ctx.note('group_centre_origin_defaults', len(origin))
+    setup = gmod.func('Group.setup')
+    calls = [c for c in calls_in(setup, nested=False) if last_attr(c) == 'setup_atoms'
+             and norm(c.func.value) == 'self']
+    ctx.ob(rule, 'centre:setup-calls-setup_atoms',
+           len(calls) == 1 and enclosing_stmt(calls[0]) in setup.body,
+           'Group.setup calls self.setup_atoms() unconditionally', gmod, calls[0] if calls else setup)
+    sc = gmod.func('Group.set_center')
+    # the centre is the mean: sum of atom coordinates divided by their number
+    txt = [norm(x).replace(' ', '') for x in walk_no_nested(sc) if isinstance(x, (ast.Assign, ast.AugAssign))]
+    per_axis = all(('self.%s+=atom.%s' % (a, a)) in ''.join(txt) and
+                   any(t.startswith('self.%s/=' % a) and 'len(atoms)' in t for t in txt) for a in 'xyz')
+    ctx.ob(rule, 'centre:mean-of-atom-positions', per_axis,
+           'Group.set_center sets each axis to the sum of the atoms\' coordinate divided by '
+           'len(atoms)', gmod, sc)
+    if n < 20:
+        raise AnalysisError('only %d setup_atoms routines found in group.py' % n)
+
+
 def run(ctx):
     prog = ctx.prog
     cg = callgraph.build(prog)
@@ -487,6 +543,7 @@ def run(ctx):
                        'coordinates in %s.%s: %s' % (mod.name, qual, how), mod, top)
     ctx.note('coordinate_reads_outside_vector_algebra', {'functions': n_funcs, 'reads': n_reads})
     ctx.need('C04.R1', 30)
+    check_group_centres(ctx, 'C04.R1', prog)
     # Vector kinds in the hydrogen builder and the planarity test
     for mname, quals in (('protonate', ('Protonate.trigonal', 'Protonate.tetrahedral')),
                          ('ligand', ('are_atoms_planar',))):
